@@ -306,5 +306,5 @@ def strategy(draw):
 
 PHASES = [
     Phase("missing", run_case, strategy=strategy,
-          examples={"quick": 2400, "thorough": 30000}),
+          examples={"quick": 2400, "thorough": 100000}),
 ]
